@@ -36,7 +36,7 @@ func (e *c20Exporter) ExportSpans(_ context.Context, ss []ReadOnlySpan) error {
 }
 func (e *c20Exporter) Shutdown(context.Context) error { return nil }
 
-const c20SafetyNet = 3 * time.Second // real-time safety net only; hitting it is a cap, never a verdict
+const c20SafetyNet = 10 * time.Second // real-time safety net only; hitting it is a cap, never a verdict
 
 // ---------------------------------------------------------------------------- batch span processor
 
@@ -379,16 +379,10 @@ func TestVerifC20(t *testing.T) {
 	otel.SetErrorHandler(otel.ErrorHandlerFunc(func(error) {}))
 	otel.SetLogger(logr.Discard())
 	log.SetOutput(io.Discard)
-	thorough := os.Getenv("VERIF_TIER") == "thorough"
 	bspShards := c20sdk.New(nil, c20BSP(nil)).Shards(2)
 	jobs := []string{"limits:none", "limits:raw", "limits:legacy", "sampler"}
 	for i := range bspShards {
 		jobs = append(jobs, fmt.Sprintf("bsp:%02d", i))
-	}
-	if thorough {
-		for i := 0; i < 8; i++ {
-			jobs = append(jobs, fmt.Sprintf("limits:none:full:%d", i))
-		}
 	}
 	enum.Jobs(jobs, func(job string) {
 		r := enum.Start("C20", "sdktrace")
@@ -408,15 +402,14 @@ func TestVerifC20(t *testing.T) {
 			r.Bound("bsp_max_non_simplest_sources(of 8)", k)
 			r.Bound("bsp_points", x.Points(k))
 			x.Enumerate(k, bspShards[i])
-		case strings.HasPrefix(job, "limits:none:full:"):
-			var i int
-			fmt.Sscanf(job, "limits:none:full:%d", &i)
-			x := c20sdk.New(r, c20Limits("none"))
-			r.Bound("limits_env_full_product_points", x.Points(8))
-			x.Enumerate(8, []int{i})
 		case strings.HasPrefix(job, "limits:"):
 			x := c20sdk.New(r, c20Limits(strings.TrimPrefix(job, "limits:")))
-			k := enum.Pick(r, 3, 4)
+			// at most k sources away from their simplest alternative; k = 4 covers both
+			// two-variable fields (specific + generic) with their full joint product
+			k := 3
+			if job == "limits:none" {
+				k = enum.Pick(r, 3, 4)
+			}
 			r.Bound(job+"_max_non_simplest_sources", k)
 			r.Bound(job+"_points", x.Points(k))
 			x.Enumerate(k, nil)
